@@ -13,7 +13,9 @@ CHECKS = {
              "quantifies over: all 1957 ordered selections of the 6 shipped "
              "steps through the real autosort/check_order/apply, every "
              "insertion of an unknown identifier, all ordered pairs of "
-             "autosort calls on orderings of one step set; reference order predicates "
+             "autosort calls on orderings of one step set and every admissible "
+             "list after every admissible list (each pair from a pristine "
+             "module state); reference order predicates "
              "derived from the step metadata. Exhaustive, so this decides the "
              "property for the shipped step set.",
         design_ref="DESIGN.md §2 C14",
@@ -51,7 +53,8 @@ CHECKS = {
         text="Explicit-state BFS over sequences of 7 valid and 8 invalid "
              "(steps, options) requests through apply_preprocessing "
              "(with/without ret_details) and fit_model(preprocessing=...), "
-             "interleaved with fits and a rating: all ordered pairs (quick) "
+             "interleaved with fits and a rating, plus requests through one "
+             "client-owned options dictionary edited in place: all ordered pairs (quick) "
              "/ triples (thorough) on a synthetic and recorded curves. "
              "Oracles: byte equality with a fresh curve, rejection "
              "predicate, raw-data digest. Pair/sequence quantifier is "
@@ -413,14 +416,14 @@ def build():
             {"name": "enum", "path": "mc/props/c14.py", "serves_properties": ["C14"],
              "kind_free_text": "complete enumeration of a finite input domain on the implementation"},
             {"name": "hist", "path": "mc/hist.py", "serves_properties": ["C03", "C06", "C09", "C10", "C12", "C16", "C20"],
-             "kind_free_text": "explicit-state breadth-first search over operation histories on real objects (replay from scratch, canonical state hash, per-state and per-transition oracles, merge-soundness and determinism self-checks)"},
+             "kind_free_text": "explicit-state breadth-first search over operation histories on real objects (replay from scratch, canonical state hash that includes the library's module-level state, per-state and per-transition oracles, merge-soundness and determinism self-checks)"},
             {"name": "grid", "path": "mc/grid.py", "serves_properties": ["C01", "C02", "C04", "C05", "C07", "C08", "C11", "C13", "C15", "C17"],
              "kind_free_text": "exhaustive cartesian enumeration of inputs/configurations, chunked over a spawn pool, reference-model or relational oracle per cell"},
             {"name": "store", "path": "mc/props/c03_store.py", "serves_properties": ["C03", "C18", "C19"],
              "kind_free_text": "closure (fixpoint) search of small dictionary-like stores against a reference model"},
         ],
         "checks": checks,
-        "notes": "All checks run the real nanite code from /repo/src (no build step). Exit 0 = held, 1 = VIOLATION (every reported counterexample was re-executed and reproduced in a fresh interpreter), 2 = harness error (no verdict). known_findings.json lists genuine defects (fixed ones with their fix: commit). seeded/ holds 78 confirmed property-breaking changes with the checks' results (seeded/MATRIX.md); tools/seedtest.py re-runs them.",
+        "notes": "All checks run the real nanite code from /repo/src (no build step). Exit 0 = held, 1 = VIOLATION (every reported counterexample was re-executed and reproduced in a fresh interpreter), 2 = harness error (no verdict). known_findings.json lists genuine defects (fixed ones with their fix: commit). seeded/ holds 98 confirmed property-breaking changes with the checks' results (seeded/MATRIX.md); tools/seedtest.py re-runs them.",
         "not_applicable": [{"property_id": p, "reason": NA_REASON}
                            for p in ALL if p not in CHECKS],
     }
